@@ -4,8 +4,8 @@ import FeatherModel.Model.VersionGraph
 
 namespace VG
 
-theorem addNode_root (g : Graph) (vs : JStr) : (addNode g vs).1.root = g.root := by
-  unfold addNode
+theorem addNodeRaw_root (g : Graph) (vs : JStr) : (addNodeRaw g vs).1.root = g.root := by
+  unfold addNodeRaw
   split
   · rename_i client server _
     cases AList.lookup client g.versions with
@@ -17,8 +17,8 @@ theorem addNode_root (g : Graph) (vs : JStr) : (addNode g vs).1.root = g.root :=
       split <;> rfl
   · split <;> rfl
 
-theorem addNode_edges (g : Graph) (vs : JStr) : (addNode g vs).1.edges = g.edges := by
-  unfold addNode
+theorem addNodeRaw_edges (g : Graph) (vs : JStr) : (addNodeRaw g vs).1.edges = g.edges := by
+  unfold addNodeRaw
   split
   · rename_i client server _
     cases AList.lookup client g.versions with
@@ -36,134 +36,6 @@ theorem badDiffName_fileRoot {f : JStr × Bytes} (h : badDiffName f = true) : fi
   cases hs : stripSuffix EXT_TINY f.1 with
   | some _ => rw [hs] at h; simp at h
   | none => rfl
-
-theorem addFile_none_iff (g : Graph) (f : JStr × Bytes) :
-    addFile g f = none ↔ (badDiffName f = true ∨ ((fileRoot f).isSome = true ∧ g.root.isSome = true)) := by
-  unfold addFile badDiffName fileRoot
-  cases stripSuffix EXT_TINY f.1 with
-  | some vs =>
-    simp only
-    rw [addNode_root]
-    cases g.root <;> simp
-  | none =>
-    simp only
-    cases stripSuffix EXT_DIFF f.1 with
-    | none => simp
-    | some raw =>
-      simp only
-      cases splitOnce HASH raw with
-      | none => simp
-      | some pv => obtain ⟨p, v⟩ := pv; simp
-
-theorem addFile_root {g g' : Graph} {f : JStr × Bytes} (h : addFile g f = some g') :
-    g'.root.isSome = (g.root.isSome || (fileRoot f).isSome) ∧ (fileRoot f = none → g'.root = g.root) := by
-  unfold addFile at h
-  unfold fileRoot
-  cases ht : stripSuffix EXT_TINY f.1 with
-  | some vs =>
-    rw [ht] at h
-    simp only at h
-    rw [addNode_root] at h
-    cases hr : g.root with
-    | some r => rw [hr] at h; simp at h
-    | none =>
-      rw [hr] at h
-      simp only [Option.some.injEq] at h
-      subst h
-      simp
-  | none =>
-    rw [ht] at h
-    simp only at h
-    cases hd : stripSuffix EXT_DIFF f.1 with
-    | none =>
-      rw [hd] at h
-      simp only [Option.some.injEq] at h
-      subst h
-      simp
-    | some raw =>
-      rw [hd] at h
-      simp only at h
-      cases hh : splitOnce HASH raw with
-      | none => rw [hh] at h; simp at h
-      | some pv =>
-        obtain ⟨p, v⟩ := pv
-        rw [hh] at h
-        simp only [Option.some.injEq] at h
-        subst h
-        simp [addNode_root]
-
-def rootBit (g : Graph) : Nat := if g.root.isSome then 1 else 0
-
-/-- the scan fails exactly on a `.tinydiff` without `#` or on a second `.tiny` — whatever the listing order -/
-theorem addFiles_none_iff : ∀ (dir : List (JStr × Bytes)) (g : Graph),
-    addFiles g dir = none ↔ (dir.any badDiffName = true ∨ 2 ≤ rootBit g + (dirRoots dir).length) := by
-  intro dir
-  induction dir with
-  | nil =>
-    intro g
-    simp only [addFiles, dirRoots, List.any_nil, List.filterMap_nil, List.length_nil]
-    unfold rootBit
-    split <;> simp
-  | cons f fs ih =>
-    intro g
-    simp only [addFiles]
-    cases hf : addFile g f with
-    | none =>
-      simp only [true_iff]
-      rcases (addFile_none_iff g f).mp hf with h | ⟨h1, h2⟩
-      · left; simp [h]
-      · right
-        unfold rootBit
-        simp only [h2, if_true, dirRoots, List.filterMap_cons]
-        cases hfr : fileRoot f with
-        | none => rw [hfr] at h1; simp at h1
-        | some r => simp; omega
-    | some g1 =>
-      simp only
-      rw [ih g1]
-      have hnb : ¬ (badDiffName f = true ∨ ((fileRoot f).isSome = true ∧ g.root.isSome = true)) := by
-        intro h
-        have := (addFile_none_iff g f).mpr h
-        rw [hf] at this; simp at this
-      have hbad : badDiffName f = false := by
-        cases hb : badDiffName f with
-        | false => rfl
-        | true => exact absurd (Or.inl hb) hnb
-      obtain ⟨hroot, _⟩ := addFile_root hf
-      simp only [List.any_cons, hbad, Bool.false_or, dirRoots, List.filterMap_cons]
-      unfold rootBit
-      rw [hroot]
-      cases hfr : fileRoot f with
-      | none => simp
-      | some r =>
-        have hg : g.root.isSome = false := by
-          cases hgr : g.root.isSome with
-          | false => rfl
-          | true => exact absurd (Or.inr ⟨by simp [hfr], hgr⟩) hnb
-        simp only [hg, Bool.false_or, Option.isSome_some, if_true, List.length_cons, Bool.false_eq_true, if_false]
-        have : ∀ n : Nat, (2 ≤ 1 + n) ↔ (2 ≤ 0 + (n + 1)) := by intro n; omega
-        rw [this]
-
-theorem addFiles_root_none : ∀ (dir : List (JStr × Bytes)) {g g' : Graph},
-    addFiles g dir = some g' → dirRoots dir = [] → g'.root = g.root := by
-  intro dir
-  induction dir with
-  | nil => intro g g' h _; simp only [addFiles, Option.some.injEq] at h; subst h; rfl
-  | cons f fs ih =>
-    intro g g' h hr
-    simp only [addFiles] at h
-    cases hf : addFile g f with
-    | none => rw [hf] at h; simp at h
-    | some g1 =>
-      rw [hf] at h
-      simp only at h
-      simp only [dirRoots, List.filterMap_cons] at hr
-      cases hfr : fileRoot f with
-      | some r => rw [hfr] at hr; simp at hr
-      | none =>
-        rw [hfr] at hr
-        rw [ih h hr]
-        exact (addFile_root hf).2 hfr
 
 /-! ## file names -/
 
